@@ -331,6 +331,18 @@ def _unexpected_exception(ob, params, ctx, exc, st):
                                  "failing": [f"unexpected_{type(exc).__name__}"], "choices": dict(ctx.choices),
                                  "concrete_failing": [f"unexpected_{type(exc).__name__}: {exc}"[:300]], "obs": None})
         return True
+    if conc is not None and not all(conc["parts"].values()) and not any(conc["known"].values()):
+        # symbolic execution stopped (an operation outside what the stand-ins support, reached only by changed code),
+        # but the real code, run on the witness of the path explored so far, violates the obligation: that is a
+        # violation demonstrated on the real code - reported as such, and labelled as not solver-decided
+        st["paths"] += 1
+        st["reach"] = True
+        failing = [k for k, v in conc["parts"].items() if not v]
+        st["violations"].append({"obligation": ob.name, "params": _jsonable(params), "inputs": inputs, "failing": failing,
+                                 "choices": dict(ctx.choices), "concrete_failing": failing, "obs": conc["obs"],
+                                 "found_by": "real code at the witness of the path on which symbolic execution stopped "
+                                             f"({type(exc).__name__}: {exc})"[:400]})
+        return True
     return False
 
 
